@@ -505,6 +505,272 @@ theorem evalJob_sound_time (c : Ctx) (j : JobS) (pos : Position) (f : Found)
   obtain ⟨p, w, hp, hw, hf, hok⟩ := evalJob_accepted c j pos f h
   exact ⟨p, w, hp, hw, hf, evalTime_sound c.m.t c.veh c.acts f.index _ hi hbase (evalActivity_ok_time c _ _ _ hok)⟩
 
+/-! ## completeness of the whole scan (time part: jobs without demand)
+
+`evalJob` walks legs × places × windows, remembers the best accepted placement and stops at a "fail and stop" verdict.
+On a feasible tour that verdict is unreachable (`evalTime_never_stops`), an accepted placement is never forgotten, and
+the feasible placement is accepted when its turn comes (`evalTime_complete`): so if the step-by-step simulation finds ANY
+feasible (leg, place, window), `Any` succeeds. Stated for jobs without demand (capacity is then not involved; with
+demand the capacity part is `C06Cap.cap_complete1` per dimension and the combination is decided by the oracle). -/
+
+theorem evalActivity_noDem (c : Ctx) (i : Nat) (x : Act) :
+    evalActivity c i x none = evalTime c.m.t c.veh c.acts i x := by
+  unfold evalActivity capViolationAt
+  cases evalTime c.m.t c.veh c.acts i x <;> rfl
+
+theorem scanWindows_best_mono (c : Ctx) (j : JobS) (i pi : Nat) (p : JPlace) (ws : List (Int × Int)) (sc : Scan)
+    (h : sc.best.isSome = true) : (scanWindows c j i pi p ws sc).1.best.isSome = true := by
+  induction ws generalizing sc with
+  | nil => simpa [scanWindows] using h
+  | cons w ws ih =>
+    simp only [scanWindows]
+    cases evalActivity c i { loc := p.loc, s := w.1, e := w.2, dur := p.dur } j.dem with
+    | fail => simpa using h
+    | skip => exact ih _ (by simpa using h)
+    | ok =>
+      simp only
+      split <;> (try split) <;> first | exact ih _ (by simp) | exact ih _ h
+
+/-- no window of the list is answered with "fail": the scan of the place does not stop -/
+theorem scanWindows_no_stop (c : Ctx) (j : JobS) (i pi : Nat) (p : JPlace) (ws : List (Int × Int)) (sc : Scan)
+    (hnf : ∀ w ∈ ws, evalActivity c i { loc := p.loc, s := w.1, e := w.2, dur := p.dur } j.dem ≠ .fail) :
+    (scanWindows c j i pi p ws sc).2 = false := by
+  induction ws generalizing sc with
+  | nil => rfl
+  | cons w ws ih =>
+    have hw := hnf w (by simp)
+    have hrest : ∀ w' ∈ ws, evalActivity c i { loc := p.loc, s := w'.1, e := w'.2, dur := p.dur } j.dem ≠ .fail :=
+      fun w' hw' => hnf w' (List.mem_cons_of_mem _ hw')
+    simp only [scanWindows]
+    cases hv : evalActivity c i { loc := p.loc, s := w.1, e := w.2, dur := p.dur } j.dem with
+    | fail => exact absurd hv hw
+    | skip => exact ih _ hrest
+    | ok =>
+      simp only
+      split <;> (try split) <;> exact ih _ hrest
+
+theorem scanWindows_finds (c : Ctx) (j : JobS) (i pi : Nat) (p : JPlace) (ws : List (Int × Int)) (sc : Scan)
+    (hnf : ∀ w ∈ ws, evalActivity c i { loc := p.loc, s := w.1, e := w.2, dur := p.dur } j.dem ≠ .fail)
+    (w : Int × Int) (hw : w ∈ ws)
+    (hok : evalActivity c i { loc := p.loc, s := w.1, e := w.2, dur := p.dur } j.dem = .ok) :
+    (scanWindows c j i pi p ws sc).1.best.isSome = true := by
+  induction ws generalizing sc with
+  | nil => simp at hw
+  | cons w0 ws ih =>
+    have hw0 := hnf w0 (by simp)
+    have hrest : ∀ w' ∈ ws, evalActivity c i { loc := p.loc, s := w'.1, e := w'.2, dur := p.dur } j.dem ≠ .fail :=
+      fun w' hw' => hnf w' (List.mem_cons_of_mem _ hw')
+    simp only [scanWindows]
+    cases hv : evalActivity c i { loc := p.loc, s := w0.1, e := w0.2, dur := p.dur } j.dem with
+    | fail => exact absurd hv hw0
+    | skip =>
+      rcases List.mem_cons.mp hw with rfl | hw'
+      · rw [hok] at hv; cases hv
+      · exact ih _ hrest hw'
+    | ok =>
+      simp only
+      -- either the new placement becomes the best, or there already is a best: in both cases a best exists from now on
+      cases hbest : sc.best with
+      | none => simp only [if_true]; exact scanWindows_best_mono c j i pi p ws _ (by simp)
+      | some b =>
+        simp only
+        split
+        · exact scanWindows_best_mono c j i pi p ws _ (by simp)
+        · exact scanWindows_best_mono c j i pi p ws sc (by simp [hbest])
+
+theorem scanPlaces_best_mono (c : Ctx) (j : JobS) (i : Nat) (ps : List JPlace) (pi : Nat) (sc : Scan)
+    (h : sc.best.isSome = true) : (scanPlaces c j i ps pi sc).1.best.isSome = true := by
+  induction ps generalizing pi sc with
+  | nil => simpa [scanPlaces] using h
+  | cons p ps ih =>
+    simp only [scanPlaces]
+    have hw := scanWindows_best_mono c j i pi p p.tws sc h
+    cases hs : scanWindows c j i pi p p.tws sc with
+    | mk sc' stop =>
+      rw [hs] at hw
+      cases stop with
+      | true => simpa using hw
+      | false => exact ih (pi + 1) sc' hw
+
+def NoFailAt (c : Ctx) (j : JobS) (i : Nat) : Prop :=
+  ∀ p ∈ j.places, ∀ w ∈ p.tws, evalActivity c i { loc := p.loc, s := w.1, e := w.2, dur := p.dur } j.dem ≠ .fail
+
+theorem scanPlaces_no_stop (c : Ctx) (j : JobS) (i : Nat) (ps : List JPlace) (pi : Nat) (sc : Scan)
+    (hnf : ∀ p ∈ ps, ∀ w ∈ p.tws, evalActivity c i { loc := p.loc, s := w.1, e := w.2, dur := p.dur } j.dem ≠ .fail) :
+    (scanPlaces c j i ps pi sc).2 = false := by
+  induction ps generalizing pi sc with
+  | nil => rfl
+  | cons p ps ih =>
+    simp only [scanPlaces]
+    have hns := scanWindows_no_stop c j i pi p p.tws sc (hnf p (by simp))
+    cases hs : scanWindows c j i pi p p.tws sc with
+    | mk sc' stop =>
+      rw [hs] at hns
+      simp only at hns
+      subst hns
+      exact ih (pi + 1) sc' (fun q hq => hnf q (List.mem_cons_of_mem _ hq))
+
+theorem scanPlaces_finds (c : Ctx) (j : JobS) (i : Nat) (ps : List JPlace) (pi : Nat) (sc : Scan)
+    (hnf : ∀ p ∈ ps, ∀ w ∈ p.tws, evalActivity c i { loc := p.loc, s := w.1, e := w.2, dur := p.dur } j.dem ≠ .fail)
+    (p : JPlace) (hp : p ∈ ps) (w : Int × Int) (hw : w ∈ p.tws)
+    (hok : evalActivity c i { loc := p.loc, s := w.1, e := w.2, dur := p.dur } j.dem = .ok) :
+    (scanPlaces c j i ps pi sc).1.best.isSome = true := by
+  induction ps generalizing pi sc with
+  | nil => simp at hp
+  | cons q ps ih =>
+    simp only [scanPlaces]
+    have hns := scanWindows_no_stop c j i pi q q.tws sc (hnf q (by simp))
+    cases hs : scanWindows c j i pi q q.tws sc with
+    | mk sc' stop =>
+      rw [hs] at hns
+      simp only at hns
+      subst hns
+      simp only
+      rcases List.mem_cons.mp hp with rfl | hp'
+      · have := scanWindows_finds c j i pi p p.tws sc (hnf p (by simp)) w hw hok
+        rw [hs] at this
+        exact scanPlaces_best_mono c j i ps (pi + 1) sc' this
+      · exact ih (pi + 1) sc' (fun r hr => hnf r (List.mem_cons_of_mem _ hr)) hp'
+
+theorem scanLegs_best_mono (c : Ctx) (j : JobS) (is : List Nat) (sc : Scan) (h : sc.best.isSome = true) :
+    (scanLegs c j is sc).best.isSome = true := by
+  induction is generalizing sc with
+  | nil => simpa [scanLegs] using h
+  | cons i is ih =>
+    simp only [scanLegs]
+    have hp := scanPlaces_best_mono c j i j.places 0 sc h
+    cases hs : scanPlaces c j i j.places 0 sc with
+    | mk sc' stop =>
+      rw [hs] at hp
+      cases stop with
+      | true => simpa using hp
+      | false => exact ih sc' hp
+
+theorem scanLegs_finds (c : Ctx) (j : JobS) (is : List Nat) (sc : Scan)
+    (hnf : ∀ i ∈ is, NoFailAt c j i)
+    (i : Nat) (hi : i ∈ is) (p : JPlace) (hp : p ∈ j.places) (w : Int × Int) (hw : w ∈ p.tws)
+    (hok : evalActivity c i { loc := p.loc, s := w.1, e := w.2, dur := p.dur } j.dem = .ok) :
+    (scanLegs c j is sc).best.isSome = true := by
+  induction is generalizing sc with
+  | nil => simp at hi
+  | cons i0 is ih =>
+    simp only [scanLegs]
+    have hns := scanPlaces_no_stop c j i0 j.places 0 sc (hnf i0 (by simp))
+    cases hs : scanPlaces c j i0 j.places 0 sc with
+    | mk sc' stop =>
+      rw [hs] at hns
+      simp only at hns
+      subst hns
+      simp only
+      rcases List.mem_cons.mp hi with rfl | hi'
+      · have := scanPlaces_finds c j i j.places 0 sc (hnf i (by simp)) p hp w hw hok
+        rw [hs] at this
+        exact scanLegs_best_mono c j is sc' this
+      · exact ih sc' (fun k hk => hnf k (List.mem_cons_of_mem _ hk)) hi'
+
+/-- **C06 completeness of `Any` (time part)**: for a job without demand on a feasible tour with non-negative travel
+    times and service durations: if the route-level test lets the job through and the step-by-step simulation finds the
+    tour with the job inserted at SOME leg, place and window feasible, then `eval_job_insertion_in_route(Any)` (model)
+    succeeds. -/
+theorem evalJob_any_complete_time (c : Ctx) (j : JobS) (hdem : j.dem = none)
+    (ht : ∀ a b, 0 ≤ c.m.t a b) (hd : ∀ a ∈ c.acts, 0 ≤ a.dur)
+    (hdep : 0 ≤ c.veh.dep) (hearly : c.veh.earliest ≤ c.veh.dep)
+    (hbase : tourFeas c.m.t c.veh c.acts = true)
+    (hroute : evalRoute c j = true)
+    (i : Nat) (hi : i ≤ c.acts.length) (p : JPlace) (hp : p ∈ j.places) (w : Int × Int) (hw : w ∈ p.tws)
+    (hpd : 0 ≤ p.dur) (hww : w.1 ≤ w.2)
+    (hfeas : tourFeas c.m.t c.veh (insertAt c.acts i { loc := p.loc, s := w.1, e := w.2, dur := p.dur }) = true) :
+    (evalJob c j .any).isSome = true := by
+  unfold evalJob
+  simp only [hroute, Bool.not_true, Bool.false_eq_true, if_false]
+  have hlen : c.acts.length = c.tour.length := by simp [Ctx.acts]
+  have hlegs : legCount c = c.tour.length + 1 := by unfold legCount; split <;> rfl
+  apply scanLegs_finds c j (List.range (legCount c)) {} ?_ i ?_ p hp w hw ?_
+  · -- "fail and stop" is unreachable at every leg of the tour
+    intro k hk p' _ w' _
+    rw [hdem, evalActivity_noDem]
+    have hk' : k ≤ c.acts.length := by
+      have := List.mem_range.mp hk
+      omega
+    exact evalTime_never_stops c.m.t ht c.veh c.acts k _ hk' hd hdep hearly hbase
+  · apply List.mem_range.mpr; omega
+  · rw [hdem, evalActivity_noDem]
+    exact evalTime_complete c.m.t ht c.veh c.acts i _ hi hd hpd hww hdep hearly hbase hfeas
+
+/-- the clock never runs backwards (non-negative travel times and service durations) -/
+theorem after_snd_ge (t : Nat → Nat → Int) (ht : ∀ a b, 0 ≤ t a b) (xs : List Act) (hd : ∀ a ∈ xs, 0 ≤ a.dur)
+    (l : Nat) (dep : Int) : dep ≤ (after t xs l dep).2 := by
+  induction xs generalizing l dep with
+  | nil => simp [after]
+  | cons a r ih =>
+    simp only [after]
+    have h1 := ih (fun b hb => hd b (List.mem_cons_of_mem _ hb)) a.loc (depOf a (dep + t l a.loc))
+    have h2 : dep ≤ depOf a (dep + t l a.loc) := by
+      unfold depOf
+      have := ht l a.loc
+      have := hd a (by simp)
+      omega
+    omega
+
+/-- the route-level test lets through every job without demand that has a feasible placement -/
+theorem evalRoute_of_feasible_time (c : Ctx) (j : JobS) (hdem : j.dem = none)
+    (ht : ∀ a b, 0 ≤ c.m.t a b) (hd : ∀ a ∈ c.acts, 0 ≤ a.dur)
+    (hearly : c.veh.earliest ≤ c.veh.dep)
+    (i : Nat) (p : JPlace) (hp : p ∈ j.places) (w : Int × Int) (hw : w ∈ p.tws)
+    (hok : evalTime c.m.t c.veh c.acts i { loc := p.loc, s := w.1, e := w.2, dur := p.dur } = .ok) :
+    evalRoute c j = true := by
+  obtain ⟨_, hlate, hcore⟩ := (evalTime_ok_iff c.m.t c.veh c.acts i _).mp hok
+  have hge := after_snd_ge c.m.t ht (c.acts.take i) (fun a ha => hd a (List.mem_of_mem_take ha)) c.veh.startLoc c.veh.dep
+  have htp := ht (after c.m.t (c.acts.take i) c.veh.startLoc c.veh.dep).1 p.loc
+  -- the arrival at the target is within its window
+  have harr : (after c.m.t (c.acts.take i) c.veh.startLoc c.veh.dep).2 +
+      c.m.t (after c.m.t (c.acts.take i) c.veh.startLoc c.veh.dep).1 p.loc ≤ w.2 := by
+    unfold evalTimeCore at hcore
+    split at hcore
+    · simp only at hcore
+      split at hcore
+      · cases hcore
+      · omega
+    · simp only at hcore
+      split at hcore
+      · cases hcore
+      · split at hcore
+        · cases hcore
+        · split at hcore
+          · cases hcore
+          · rename_i h3
+            omega
+  unfold evalRoute
+  simp only [hdem, Bool.and_eq_true]
+  constructor
+  · apply List.any_eq_true.mpr
+    refine ⟨p, hp, List.any_eq_true.mpr ⟨w, hw, ?_⟩⟩
+    simp only [Bool.and_eq_true, decide_eq_true_eq]
+    constructor
+    · unfold tooLate at hlate
+      cases he : c.veh.endAt with
+      | none => simp
+      | some q =>
+        simp only [he] at hlate ⊢
+        simpa using hlate
+    · omega
+  · unfold capViolationAt
+    simp
+
+/-- **C06 completeness of `Any` (time part), without any model-internal hypothesis** -/
+theorem evalJob_any_complete_time' (c : Ctx) (j : JobS) (hdem : j.dem = none)
+    (ht : ∀ a b, 0 ≤ c.m.t a b) (hd : ∀ a ∈ c.acts, 0 ≤ a.dur)
+    (hdep : 0 ≤ c.veh.dep) (hearly : c.veh.earliest ≤ c.veh.dep)
+    (hbase : tourFeas c.m.t c.veh c.acts = true)
+    (i : Nat) (hi : i ≤ c.acts.length) (p : JPlace) (hp : p ∈ j.places) (w : Int × Int) (hw : w ∈ p.tws)
+    (hpd : 0 ≤ p.dur) (hww : w.1 ≤ w.2)
+    (hfeas : tourFeas c.m.t c.veh (insertAt c.acts i { loc := p.loc, s := w.1, e := w.2, dur := p.dur }) = true) :
+    (evalJob c j .any).isSome = true :=
+  evalJob_any_complete_time c j hdem ht hd hdep hearly hbase
+    (evalRoute_of_feasible_time c j hdem ht hd hearly i p hp w hw
+      (evalTime_complete c.m.t ht c.veh c.acts i _ hi hd hpd hww hdep hearly hbase hfeas))
+    i hi p hp w hw hpd hww hfeas
+
 /-! ### non-vacuity: a tour with waiting and a tight window, closed and open -/
 
 def exT : Nat → Nat → Int := fun a b => if a = b then 0 else 5
